@@ -9,6 +9,7 @@ package main
 
 import (
 	"go/token"
+	"reflect"
 
 	"golang.org/x/tools/go/ssa"
 )
@@ -124,4 +125,109 @@ func ruleC08Unwrap(p *Prog, a *Anchors, r *Report) {
 	if n == 0 {
 		r.Trivial("none", "-", "the resolver opens no interface by reflect.ValueOf(x.Interface())")
 	}
+}
+
+// R-C08-DEREF: "pointers (to pointers, to interfaces …) are followed". A loop of the resolver that replaces the value
+// it walks by its Elem() for as long as it is a pointer arrives, for a pointer to an interface value (*any, an
+// optional *SomeInterface field), at a value of kind Interface — which no step knows how to look into. Such a loop
+// therefore goes on for kind Interface as well as for kind Ptr: its Elem() call is reachable on the Interface edge,
+// not only on the Ptr edge.
+func ruleC08Deref(p *Prog, a *Anchors, r *Report) {
+	r.Begin("R-C08-DEREF", "a loop of the resolver that follows pointers by Elem() follows what an interface holds as well (the loop continues for Kind() == Interface, not only for Kind() == Ptr)", 1)
+	resFn := p.Method("variableResolver", "resolve")
+	if resFn == nil {
+		r.Unk("anchor", "-", "anchor unresolved: (*variableResolver).resolve")
+		return
+	}
+	kindTest := func(c ssa.Value, subject string) (int, bool) {
+		bo, ok := c.(*ssa.BinOp)
+		if !ok || bo.Op != token.EQL {
+			return 0, false
+		}
+		for _, pr := range [][2]ssa.Value{{bo.X, bo.Y}, {bo.Y, bo.X}} {
+			k, isK := kindConst(pr[1])
+			call, isC := pr[0].(*ssa.Call)
+			if !isK || !isC || call.Common().StaticCallee() == nil || p.extName(call.Common().StaticCallee()) != "(reflect.Value).Kind" {
+				continue
+			}
+			if p.VN(stripLoad(call.Common().Args[0])) == subject || cellOf(call.Common().Args[0]) == subject {
+				return k, true
+			}
+		}
+		return 0, false
+	}
+	n := 0
+	for _, f := range clusterOf(p, resFn, 2) {
+		for _, b := range f.Blocks {
+			for _, in := range b.Instrs {
+				call, ok := in.(*ssa.Call)
+				if !ok || call.Common().StaticCallee() == nil || p.extName(call.Common().StaticCallee()) != "(reflect.Value).Elem" {
+					continue
+				}
+				if innermostLoopHeader(b) == nil {
+					continue
+				}
+				recv := call.Common().Args[0]
+				subject := cellOf(recv)
+				// the result goes back to where the receiver came from (a local cell, or a phi)
+				back := false
+				if subject != "" {
+					for _, u := range refs(call) {
+						if st, ok := u.(*ssa.Store); ok && st.Val == ssa.Value(call) && cellOf2(st.Addr) == subject {
+							back = true
+						}
+					}
+				} else if phi, ok := recv.(*ssa.Phi); ok {
+					for _, e := range phi.Edges {
+						if e == ssa.Value(call) {
+							back = true
+							subject = p.VN(phi)
+						}
+					}
+				}
+				if !back {
+					continue
+				}
+				n++
+				key := p.FuncName(topLevel(f)) + ":deref-loop"
+				ptrOnly := Guarded(in, func(c ssa.Value, pol bool) bool {
+					k, ok := kindTest(c, subject)
+					return ok && pol && k == int(reflect.Ptr)
+				})
+				either := Guarded(in, func(c ssa.Value, pol bool) bool {
+					k, ok := kindTest(c, subject)
+					return ok && pol && (k == int(reflect.Ptr) || k == int(reflect.Interface))
+				})
+				switch {
+				case ptrOnly:
+					r.Bad(key, p.InstrPos(in), "the loop follows pointers only: for a pointer to an interface value (*any, a *SomeInterface field) it stops at a value of kind Interface, and the step fails with \"can't access … on type interface\" instead of looking into what the interface holds")
+				case either:
+					r.OK(key, p.InstrPos(in), "Elem() is taken for Kind() == Ptr and for Kind() == Interface")
+				default:
+					r.Assume(key, p.InstrPos(in), "the kind tests guarding the loop were not recognised")
+				}
+			}
+		}
+	}
+	if n == 0 {
+		r.Unk("none", "-", "no loop that follows pointers by Elem() found in the resolver")
+	}
+}
+
+// cellOf: the name of the local cell v is loaded from ("" if it is not a load of an Alloc).
+func cellOf(v ssa.Value) string {
+	if u, ok := v.(*ssa.UnOp); ok && u.Op == token.MUL {
+		return cellOf2(u.X)
+	}
+	return ""
+}
+
+func cellOf2(addr ssa.Value) string {
+	if al, ok := addr.(*ssa.Alloc); ok {
+		return "cell:" + al.Name() + "@" + al.Parent().Name()
+	}
+	if fv, ok := addr.(*ssa.FreeVar); ok {
+		return "cell:" + fv.Name() + "@" + fv.Parent().Name()
+	}
+	return ""
 }
